@@ -43,7 +43,11 @@ def cases(draw):
         files.append({'path': f'd{i % 2}/f{i}', 'content': [[kind, draw(st.integers(1, 3)), size]], 'mtime_ns': 10 ** 18 + i * 7 + 1})
     fail_ = None
     n = draw(st.sampled_from([1, 1, 2, 3, 4, 8]))
-    if draw(st.integers(0, 2)) == 0:
+    only_empty = draw(st.integers(0, 11)) == 0
+    if only_empty:
+        # a tree of nothing but empty files: restore has no chunk to wait for, every file is finished by its preparation job
+        files = [{'path': f'd{i % 2}/e{i}', 'content': [['r', 1, 0]], 'mtime_ns': 10 ** 18 + i * 7 + 1} for i in range(draw(st.integers(2, 8)))]
+    if not only_empty and draw(st.integers(0, 2)) == 0:
         # a permanent failure of the k-th matching backend call, k spread over the whole command; such cases always
         # contain one long file so that "the middle of a long transfer" exists
         files.append({'path': 'd0/long', 'content': [['r', 9, draw(st.integers(40, 120)) * mx + draw(st.integers(0, 3))]],
@@ -104,6 +108,8 @@ def _run(case, work):
     n = case['n']
     enc = s.get('encryption') is not None
     classes = [f'N:{n}', 'op:' + case['op'], 'flavour:' + case['flavour'], 'encrypted' if enc else 'unencrypted']
+    if case['files'] and all(f['content'][0][2] == 0 for f in case['files']):
+        classes.append('only-empty-files')
     store = membackend.Store()
     plain = world.backend_for('mem', store)
     pw = b'pw' if enc else None
